@@ -344,9 +344,10 @@ class C14(Prop):
                 conn['since'] = b''
                 if record and state['first'] is None:
                     state['first'] = resps[0]['status']
-                if len(resps) > 1 and not many_ok:
+                final = [r for r in resps if r['status'] >= 200]       # 1xx interim responses do not answer the message
+                if len(final) > 1 and not many_ok:
                     return bad('more-than-one-response', '%d responses (%s) to a read that cannot hold two messages' % (
-                        len(resps), ', '.join(str(r['status']) for r in resps)))
+                        len(final), ', '.join(str(r['status']) for r in final)))
                 if resps[-1]['will_close'] and not closes:
                     return bad('close-missing', 'response %d announces close (will_close) but no close(sock) was fired' % resps[-1]['status'])
                 rejected = [r['status'] for r in resps if r['status'] in H.REJECT_CODES]
